@@ -5,13 +5,15 @@
    points) over a shared state and a task-local state; a locking task holds the store's lock from
    before its first segment to the end of its last one; a schedule is any list of task ids, each
    entry runs that task to its next await point; the lock is granted to whichever waiting task the
-   schedule picks (FIFO, which asyncio.Lock implements, is one such order).  Concrete: set /
+   schedule picks; asyncio.Lock's FIFO queue is modelled separately (Model/StateSchedFifo.v) and
+   proved to be simulated by it.  Concrete: set /
    set_state / get / edit_state blocks that await between their parts, for InMemoryStateStore
    (the block mutates the live state) and SqliteStateStore (the block edits a copy loaded at the
    start and saved at the end), with the locking flags read from the source into Generated.v. *)
 From Coq Require Import List ZArith Bool Permutation.
 Import ListNotations.
 From WF Require Import Generated Model.StateStore Model.StateSched Proofs.StateSchedProofs.
+From WF Require Import Model.StateSchedFifo Proofs.StateSchedFifoProofs.
 Local Open Scope nat_scope.
 
 (* the locking discipline the theorems below are instantiated with, re-read from /repo on every run:
@@ -59,6 +61,41 @@ Theorem C20_sqlite_serialisable : forall ops s0 sch,
   exists ord, Permutation ord (seq 0 (length ops)) /\ sh _ _ y = serial_ops ops ord s0.
 Proof. exact (sqlite_serialisable statestore_sqlite_locked eq_refl). Qed.
 Print Assumptions C20_sqlite_serialisable.
+
+(* asyncio.Lock's own discipline (Model/StateSchedFifo.v: a task that finds the lock busy joins a FIFO
+   queue; release hands the lock to the first waiter): every step of that semantics is the same step
+   of the guard semantics or a stutter, under a relation that keeps shared state, finishing order
+   and phases equal ... *)
+Theorem C20_fifo_step_is_guard_step_or_stutter :
+  forall (St Lo : Type) (tasks : nat -> task St Lo) (n : nat) f g i,
+  R St Lo tasks f g ->
+  R St Lo tasks (fstep St Lo tasks n f i) (step St Lo tasks n g i) \/ R St Lo tasks (fstep St Lo tasks n f i) g.
+Proof. exact step_sim. Qed.
+Print Assumptions C20_fifo_step_is_guard_step_or_stutter.
+
+(* ... so the serialisability theorems hold for the FIFO lock as well, generically and for both stores *)
+Theorem C20_serialisable_fifo_generic : forall (St Lo : Type) (tasks : nat -> task St Lo) (n : nat) (s0 : St),
+  (forall i, i < n -> ok_task St Lo (tasks i)) ->
+  forall sch,
+  let y := frun_sched St Lo tasks n s0 sch in
+  fall_finished St Lo y n = true ->
+  exists ord, Permutation ord (seq 0 n) /\ fsh _ _ y = serial St Lo tasks ord s0.
+Proof. exact fifo_serialisable. Qed.
+Print Assumptions C20_serialisable_fifo_generic.
+
+Theorem C20_memory_serialisable_fifo : forall ops s0 sch,
+  let y := frun_sched _ _ (task_table (mem_task statestore_memory_locked) ops) (length ops) s0 sch in
+  fall_finished _ _ y (length ops) = true ->
+  exists ord, Permutation ord (seq 0 (length ops)) /\ fsh _ _ y = serial_ops ops ord s0.
+Proof. exact (memory_fifo_serialisable statestore_memory_locked eq_refl). Qed.
+Print Assumptions C20_memory_serialisable_fifo.
+
+Theorem C20_sqlite_serialisable_fifo : forall ops s0 sch,
+  let y := frun_sched _ _ (task_table (sql_task statestore_sqlite_locked) ops) (length ops) s0 sch in
+  fall_finished _ _ y (length ops) = true ->
+  exists ord, Permutation ord (seq 0 (length ops)) /\ fsh _ _ y = serial_ops ops ord s0.
+Proof. exact (sqlite_fifo_serialisable statestore_sqlite_locked eq_refl). Qed.
+Print Assumptions C20_sqlite_serialisable_fifo.
 
 (* What failed before SqliteStateStore.set_state took the lock: an edit block suspended across a
    set_state overwrites it — the final state is the result of NO serial order. *)
